@@ -69,7 +69,7 @@ Leaf(n, k) ==
            I("beqz a0, " \o n \o "_zero", ""), I("add a0, s0, s0", ""), I("lw s0, 8(sp)", ""), I("addi sp, sp, 16", ""), I("ret", ""),
            L(n \o "_zero:", ""), I("li a0, 7", ""), I("lw s0, 8(sp)", n \o ":restore-s0"), I("addi sp, sp, 16", n \o ":free"), I("ret", n \o ":ret") >>
     [] k = "subframe" ->  \* the frame is allocated by subtracting a constant held in a register and released with an lui-built constant
-        << L(n \o ":", n \o ":label"), I("li t0, 4096", ""), I("sub sp, sp, t0", n \o ":first"), I("sw s0, 8(sp)", n \o ":save-s0"),
+        << L(n \o ":", n \o ":label"), I("li t0, 4096", n \o ":first"), I("sub sp, sp, t0", n \o ":alloc"), I("sw s0, 8(sp)", n \o ":save-s0"),
            I("mv s0, a0", n \o ":def-s0"), I("slli a0, s0, 1", ""), I("add a0, a0, s0", n \o ":retval"), I("lw s0, 8(sp)", n \o ":restore-s0"),
            I("lui t1, 1", ""), I("add sp, sp, t1", n \o ":free"), I("ret", n \o ":ret") >>
     [] k = "readint" ->   \* the result comes from an environment call and is handed back untouched
@@ -165,7 +165,8 @@ Inject(p, kind, fn, var) ==
   CASE kind = "saved-not-restored" ->
         IF Has(p, t("restore-s0")) THEN yes(Del(p, Idx(p, t("restore-s0"))), E({"overwrite-callee-saved-register"}, t("def-s0"), 8)) ELSE no
     [] kind = "sp-not-restored" ->
-        IF Has(p, t("free")) THEN yes(Del(p, Idx(p, t("free"))), E({"overwrite-callee-saved-register", "invalid-stack-position", "invalid-stack-pointer"}, t("first"), 2)) ELSE no
+        IF Has(p, t("free")) THEN yes(Del(p, Idx(p, t("free"))), E({"overwrite-callee-saved-register", "invalid-stack-position", "invalid-stack-pointer"},
+                                                            IF Has(p, t("alloc")) THEN t("alloc") ELSE t("first"), 2)) ELSE no
     [] kind = "ra-not-restored" ->
         \* the write of ra nearest to the return is the last call of the function
         IF Has(p, t("restore-ra"))
